@@ -560,3 +560,49 @@ def csv_import_hands_the_declared_delimiter_to_both_readers(K, delimiter):
     K.ensure("header and date cells are read with the declared delimiter", seen.get("csv") == delimiter)
     K.ensure("the numeric block is read with the declared delimiter", seen.get("array") == delimiter)
     K.ensure("the series arrives", list(K.method(db, "get_names")) == ["a"])
+
+
+@contract("C19", targets=[PIM + "Inlay.from_csv_file", PIM + "_block_iterator", PIM + "_extract_periods_from_data_rows", PIM + "_add_series_for_block",
+                          PIM + "_ImportBlock.column_iterator", "irispie.series.main:Series.set_data"],
+          instances=[(False,), (True,)], cross=2, opts={"max_paths": 3000})
+def csv_import_places_every_cell(K, with_descriptions):
+    """Reading a sheet of the layout to_csv_file writes - two blocks of different heights side by side, a series with two
+    variants (`*` column), filler rows under the shorter block: every series gets its frequency, its periods from the
+    date cells of ITS block, one variant per column, the numbers of its own columns (arbitrary values, missing cells
+    included) and, when there is a description row, its description."""
+    name_row = ["__quarterly__", "a", "b", "*", "", "__monthly__", "c", ""]
+    desc_row = ["", "first", "second", "*", "", "", "third", ""]
+    dates_q = ["2020-Q3", "2020-Q4", "", ""]
+    dates_m = ["2021-01", "2021-02", "2021-03", "2021-04"]
+    rows = [[dq, "x", "x", "x", "", dm, "x", ""] for dq, dm in zip(dates_q, dates_m)]
+    cells = ([list(name_row)] + ([list(desc_row)] if with_descriptions else []) + rows)
+    num_q = K.array("q_numbers", (4, 3))          # the numeric reader returns every row of the sheet for the block's columns
+    num_m = K.array("m_numbers", (4, 1))
+    asked = []
+
+    def read_array(file_name, block, num_header_rows, *a, **k):
+        start = K.attr(block, "column_start")
+        asked.append((start, K.attr(block, "num_columns"), num_header_rows))
+        return num_q if start == 1 else num_m
+    db = K.stubbed(IMP._read_csv, lambda *a, **k: [list(r) for r in cells], "the cells of the sheet (reading them has its own contract)",
+                   lambda: K.stubbed(IMP._read_array_for_block, read_array, "numpy.genfromtxt on the file: external; represented by arbitrary numbers",
+                                     lambda: K.call(Databox.from_csv_file, "sheet.csv", description_row=with_descriptions)))
+    K.ensure("the numeric reader is asked for the columns of each block, below the header rows",
+             sorted(asked) == [(1, 4, 1 + int(with_descriptions)), (6, 2, 1 + int(with_descriptions))])
+    K.ensure("the three series arrive under their names", sorted(K.method(db, "get_names")) == ["a", "b", "c"])
+    for name, cls, start, nrows, src, cols, desc in (("a", D.QuarterlyPeriod, D.qq(2020, 3).serial, 2, num_q, (0,), "first"),
+                                                     ("b", D.QuarterlyPeriod, D.qq(2020, 3).serial, 2, num_q, (1, 2), "second"),
+                                                     ("c", D.MonthlyPeriod, D.mm(2021, 1).serial, 4, num_m, (0,), "third")):
+        s = K.index(db, name)
+        ss, sd = state(K, s)
+        K.ensure(f"{name}: number of variants", K.shape(sd)[1] == len(cols))
+        if with_descriptions:
+            K.ensure(f"{name}: description", K.method(s, "get_description") == desc)
+        for i in range(nrows):
+            for v, col in enumerate(cols):
+                want = K.cell(src, i, col)
+                if ss is None:
+                    K.ensure(f"{name}: row {i}, variant {v} (series came back empty: every cell must have been missing)", K.cell_is_nan(want))
+                else:
+                    K.ensure(f"{name}: frequency", K.cls_of(K.attr(s, "start")) is cls)
+                    K.ensure(f"{name}: period {i}, variant {v}", K.cell_eq(V(K, ss, sd, start + i, v), want))
